@@ -14,6 +14,7 @@ from vlib import targets as tg
 
 PART = "targets"
 KEY_CDATA = "K-C05t-1"
+KEY_CHARLEN = "K-C05t-2"
 
 
 def _scripts(ctx, r, scale):
@@ -66,12 +67,47 @@ def _lines(scripts):
                 model.append(ln)
                 if s["items"] is not None:
                     model.append(tg.line("%s/%s%s" % (s["id"], t.upper(), m), t.upper(), m, s["res"], s["items"], bare=True))
+        for m in "df":
+            # the document-order indexes of the source-tree target
+            ln = tg.line("%s/i%s" % (s["id"], m), "i", m, s["res"], s["items"], s["events"], s["bare"])
+            impl.append(ln)
+            model.append(ln)
+            if s["items"] is not None:
+                model.append(tg.line("%s/J%s" % (s["id"], m), "J", m, s["res"], s["items"], bare=True))
+        if s["items"] is not None and s["safe"] and _probe_ok(s["items"]):
+            # order probe: the built source tree against the parsed stream output, queried by the same stylesheet
+            impl.append(tg.line("%s/q" % s["id"], "q", "d", None, s["items"]))
+            impl.append(tg.line("%s/p" % s["id"], "p", "d", None, s["items"]))
+            # the same with a real first stage: identity transformation into a FormatterToSourceTree document / into a stream
+            impl.append(tg.line("%s/Q" % s["id"], "Q", "d", None, s["items"]))
+            impl.append(tg.line("%s/P" % s["id"], "P", "d", None, s["items"]))
         if s["items"] is not None and s["safe"]:
             # the stream serializer: one wrapping element makes every script one well-formed document
             impl.append(tg.line("%s/m" % s["id"], "m", "d", None, [('e', "W", [], s["items"])]))
             if tg.has_kind(s["items"], "d"):
                 impl.append(tg.line("%s/m0" % s["id"], "m", "d", None, [('e', "W", [], _without(s["items"], "d"))]))
     return impl, model
+
+
+def txt(t):
+    try:
+        return bytes.fromhex((t or "").split()[1]).decode("utf-8", "replace") if _status(t) == "ok" and len(t.split()) > 1 else (t or "")
+    except ValueError:
+        return t or ""
+
+
+def _plain_names(items):
+    for it in items:
+        if it[0] == 'e':
+            if ":" in it[1] or any(":" in a[0] or a[0].startswith("xmlns") for a in it[2]) or not _plain_names(it[3]):
+                return False
+        elif it[0] not in ('c', 'm', 'p'):
+            return False
+    return True
+
+
+def _probe_ok(items):
+    return tg.doc_shape_ok(items) and sum(1 for i in items if i[0] == 'e') == 1 and _plain_names(items)
 
 
 def _first_diff(a, b):
@@ -92,6 +128,8 @@ def run_part(ctx):
         "compared with the real classes event by event on generated scripts, not derived from the C++ text beyond the facts of GenTargets.v",
         "targets: names in scripts are XML names (the INVALID_CHARACTER_ERR / NAMESPACE_ERR checks of Xerces' create* calls are not "
         "modelled); characters(chars, length) is fed with a buffer of exactly length units",
+        "targets: document-order indexes are modelled for FormatterToSourceTree only (a Xerces DOM stores none); the document's index counter at "
+        "the start of a build is a parameter of the theorem, the correspondence runs on fresh documents (a document fragment takes one index itself)",
         "targets: the stream oracle uses an alphabet that serialisation + parsing leaves unchanged (no CR, no lone surrogates), and "
         "compares qualified names and values (namespace URIs are compared between the two tree targets, except on an attribute called xmlns)",
     ]
@@ -113,7 +151,9 @@ def run_part(ctx):
     ctx.notes["gen"] = merged
     gfacts = (facts.get("GenTargets") or {}).get("facts") or {}
     cdata_fixed = bool(gfacts.get("s_cdata_is_characters"))
-    ctx.notes["targets_repo_variant"] = {"s_cdata_is_characters": cdata_fixed}
+    charlen_fixed = bool(gfacts.get("s_top_ws_test_uses_length"))
+    ctx.notes["targets_repo_variant"] = {"s_cdata_is_characters": cdata_fixed, "s_top_ws_test_uses_length": charlen_fixed,
+                                         "s_element_created_after_flush": gfacts.get("s_element_created_after_flush")}
     model, ok_m, mlog = core.build_model(PART)
     if not ok_m:
         ctx.broken.append("targets: model extraction/build failed: " + mlog[-500:])
@@ -133,7 +173,7 @@ def run_part(ctx):
         res_i = _run(impl, impl_lines, state, "library")
         res_m = _run(model, model_lines, state, "model") if model else None
         _judge(ctx, scripts, res_i, res_m, state, cdata_fixed)
-        _corpus(ctx, cdir, impl, state, cdata_fixed)
+        _corpus(ctx, cdir, impl, state, cdata_fixed, charlen_fixed)
 
     round_(1 if not ctx.thorough else 8)
     if (state["corr"] or not proved or not model) and not state["orc"] and not ctx.thorough:
@@ -150,7 +190,8 @@ def run_part(ctx):
     ctx.cov["traces_validated_against_impl"] += state["n_corr"] + state["n_spec"]
     ctx.notes["targets_rule"] = ("targets: distinct = distinct event scripts; non-trivial = scripts with a characters event directly followed by "
                                  "a node-creating event or an end tag (a flush site)")
-    ctx.notes["targets_counts"] = {"machine_vs_library": state["n_corr"], "specification_vs_library": state["n_spec"], "oracle_comparisons": state["n_orc"]}
+    ctx.notes["targets_counts"] = {"machine_vs_library": state["n_corr"], "specification_vs_library": state["n_spec"], "oracle_comparisons": state["n_orc"],
+                                   "order_probes": state.get("n_probe", 0)}
     if state["corr"]:
         ctx.broken.append("correspondence targets: %d cases differ between model and library, e.g. %s" % (len(state["corr"]), str(state["corr"][0])[:700]))
         ctx.notes["targets_correspondence_mismatches"] = [str(c)[:600] for c in state["corr"][:10]]
@@ -248,6 +289,42 @@ def _judge(ctx, scripts, res_i, res_m, state, cdata_fixed):
                                 state["corr"].append((s["cls"], "top_ok is false but the library builds a tree", ln))
                         else:
                             state["corr"].append((s["cls"], "specification line: %r" % (ts or "")[:60], ln))
+        for m in "df":
+            key = "%s/i%s" % (sid, m)
+            ti = res_i.get(key)
+            ln = tg.line(key, "i", m, s["res"], items, s["events"], s["bare"])
+            if res_m is not None:
+                tm = res_m.get(key)
+                state["n_corr"] += 1
+                if (tm or "").split() != (ti or "").split() and not (_status(tm) == "err" and _status(ti) == "err"):
+                    state["corr"].append((s["cls"], "indexes differ (machine |vs| library): %s |vs| %s" % ((tm or "")[:120], (ti or "")[:120]), ln))
+                tj = res_m.get("%s/J%s" % (sid, m)) if items is not None else None
+                if _status(tj) == "ok":
+                    state["n_spec"] += 1
+                    if (tj or "").split() != (ti or "").split():
+                        state["corr"].append((s["cls"], "indexes differ (pre-order numbering of the denoted tree |vs| library): %s |vs| %s" %
+                                              ((tj or "")[:120], (ti or "")[:120]), ln))
+            if _status(ti) == "ok":
+                # oracle: reading the dump left to right is document order (element, attributes, children): strictly increasing
+                import re as _re
+                nums = [int(x) for x in _re.findall(r"\d+", ti)]
+                state["n_orc"] += 1
+                if any(b <= a for a, b in zip(nums, nums[1:])):
+                    state["orc"].append(("index-order", "document-order indexes of the built source tree are not increasing in tree order: %s" % ti[:300], ln))
+        if items is not None and s["safe"] and _probe_ok(items):
+            tq, tp = res_i.get("%s/q" % sid), res_i.get("%s/p" % sid)
+            state["n_orc"] += 1
+            state["n_probe"] = state.get("n_probe", 0) + 2
+            if _status(tq) != "ok" or _status(tp) != "ok" or tq != tp:
+                state["orc"].append(("order-probe", "nodes listed by //text()|//*|..., //*/node(), (text()|*)[1]: the source tree built by "
+                                     "FormatterToSourceTree gives %r, the parsed stream output gives %r" % (txt(tq)[:400], txt(tp)[:400]),
+                                     tg.line("%s/q" % sid, "q", "d", None, items) + "\n" + tg.line("%s/p" % sid, "p", "d", None, items)))
+            tq, tp = res_i.get("%s/Q" % sid), res_i.get("%s/P" % sid)
+            state["n_orc"] += 1
+            if _status(tq) != "ok" or _status(tp) != "ok" or tq != tp:
+                state["orc"].append(("order-probe-2stage", "identity transformation into a FormatterToSourceTree document, then the probe: %r; into a stream that "
+                                     "is parsed again, then the probe: %r" % (txt(tq)[:400], txt(tp)[:400]),
+                                     tg.line("%s/Q" % sid, "Q", "d", None, items) + "\n" + tg.line("%s/P" % sid, "P", "d", None, items)))
         if items is None or s["cls"] in ("dup-attr",):
             continue
         _oracle(ctx, s, trees, res_i, state, cdata_fixed)
@@ -331,7 +408,7 @@ def _without(items, kinds):
     return out
 
 
-def _corpus(ctx, cdir, impl, state, cdata_fixed):
+def _corpus(ctx, cdir, impl, state, cdata_fixed, charlen_fixed=False):
     """frozen replays: every file holds case lines and, after '#expect', the verdict the unchanged tree must give"""
     if not os.path.isdir(cdir):
         return
@@ -340,13 +417,49 @@ def _corpus(ctx, cdir, impl, state, cdata_fixed):
             continue
         lines = [l for l in open(os.path.join(cdir, fn)).read().split("\n") if l and not l.startswith("#")]
         rc, res, raw = core.run_lines(impl, "\n".join(lines) + "\n", timeout=60)
-        by = {}
-        for cid, txt in res.items():
+        if fn.startswith("k_charlen"):
+            # characters(chars, length) with a buffer longer than length, white space only within length: must be accepted
+            for ln in lines:
+                cid = ln.split(" ", 1)[0]
+                state["n_orc"] += 1
+                if _status(res.get(cid)) != "ok":
+                    if not charlen_fixed:
+                        state["known"][KEY_CHARLEN] = state["known"].get(KEY_CHARLEN, 0) + 1
+                    else:
+                        state["orc"].append(("corpus-" + fn[:-4], "white space within the length passed is refused: %r" % (res.get(cid) or "")[:60], ln))
+            continue
+        import re as _re
+        for ln in lines:
+            cid = ln.split(" ", 1)[0]
+            if cid.rpartition("/")[2] in ("id", "if") and _status(res.get(cid)) == "ok":
+                nums = [int(x) for x in _re.findall(r"\d+", res[cid])]
+                state["n_orc"] += 1
+                if any(b <= a for a, b in zip(nums, nums[1:])):
+                    state["orc"].append(("corpus-" + fn[:-4], "document-order indexes are not increasing in tree order: %s" % res[cid][:200], ln))
+        qp = {}
+        for cid, val in res.items():
             base, _, cfg = cid.rpartition("/")
-            by.setdefault(base, {})[cfg] = tg.parse_dump(txt) if _status(txt) == "ok" else None
-        for base, d in by.items():
+            if cfg in ("q", "p"):
+                qp.setdefault(base, {})[cfg] = val
+            if cfg in ("Q", "P"):
+                qp.setdefault(base + "#2", {})[cfg.lower()] = val
+        for base, d in qp.items():
             state["n_orc"] += 1
-            if "m" not in d or d["m"] is None:
+            if d.get("q") != d.get("p") or _status(d.get("q")) != "ok":
+                state["orc"].append(("corpus-" + fn[:-4], "order probe: built source tree %r, parsed stream output %r" % ((d.get("q") or "")[:200], (d.get("p") or "")[:200]),
+                                     "\n".join(l for l in lines if l.split(" ", 1)[0] in (base.replace("#2", "") + "/q", base.replace("#2", "") + "/p",
+                                                                                            base.replace("#2", "") + "/Q", base.replace("#2", "") + "/P"))))
+        by = {}
+        for cid, val in res.items():
+            base, _, cfg = cid.rpartition("/")
+            if cfg not in ("xd", "xf", "sd", "sf", "m"):
+                continue
+            by.setdefault(base, {})[cfg] = tg.parse_dump(val) if _status(val) == "ok" else None
+        for base, d in by.items():
+            if "m" not in d:
+                continue
+            state["n_orc"] += 1
+            if d["m"] is None:
                 continue
             stream_raw = d["m"][0][4] if d["m"] and d["m"][0][0] == 'e' else []
             for cfg in ("xf", "sf", "xd", "sd"):
